@@ -27,7 +27,7 @@ for kd in sorted(glob.glob(os.path.join(wt, "out", "*"))):
         line = [l.strip() for l in r.stdout.splitlines() if "evid.go" in l or "fails again" in l or "INCONCLUSIVE" in l or "BUILD-FAILED" in l][:2]
         res["check"] = {"tier": tier, "verdict": verdict, "wall_s": round(time.time() - t0), "first_report": [x[:400] for x in line]}
     sh("git checkout -- .", cwd=wt)
-    dst = os.path.join(V, "variations", "%s-%s" % (prop, k))
+    dst = os.path.join(V, "variations", "%s-%s%s" % (prop, os.environ.get("NEG_TAG", ""), k))
     os.makedirs(dst, exist_ok=True)
     for f in glob.glob(os.path.join(kd, "*")):
         if os.path.isfile(f): shutil.copy(f, dst)
